@@ -783,7 +783,8 @@ def cy_to_ast(repo, rel):
     m = low.module(tree)
     for n in ast.walk(m):
         for ch in ast.iter_child_nodes(n):
-            ch.parent = n
+            if not isinstance(ch, (ast.expr_context, ast.operator, ast.cmpop, ast.boolop, ast.unaryop)):
+                ch.parent = n
     return m
 
 
@@ -808,5 +809,6 @@ def cy_string_to_ast(repo, code, name='<skeleton>'):
     m = low.module(tree)
     for n in ast.walk(m):
         for ch in ast.iter_child_nodes(n):
-            ch.parent = n
+            if not isinstance(ch, (ast.expr_context, ast.operator, ast.cmpop, ast.boolop, ast.unaryop)):
+                ch.parent = n
     return m
